@@ -126,9 +126,10 @@ def setup_hx_init(m):
         cfg = cfg_obj(I, HX + "Config", dict(max_useful_life=m, demand_poisson_mean_a=ma, demand_poisson_mean_b=mb, substitution_probability=sub, variable_order_cost_a=ca, variable_order_cost_b=cb,
                       sales_price_a=pa, sales_price_b=pb, max_order_quantity_a=Qa, max_order_quantity_b=Qb))
         cls = I.load_module(HX.rsplit(".", 1)[0]).globals[HX.rsplit(".", 1)[1]]
-        # pu / pz are filled by Python loops over scipy calls (bounded-only): stub the two table builders
-        o = Obj(cls, {"_calculate_pu": Builtin(lambda: "pu", "pu_stub"), "_calculate_pz": Builtin(lambda: "pz", "pz_stub")}, label="problem")
-        return Ctx(self=o, _args=[cfg], Qa=Qa, Qb=Qb, ca=ca, cb=cb, pa=pa, pb=pb, m=m, I=I)
+        # the two table builders _calculate_pu / _calculate_pz are seen through their own contracts (contracts/hendrix_tables.py, proved as separate units);
+        # the real _setup_after_space_construction body is inlined (its contract is popped for this unit in props.py)
+        o = Obj(cls, {}, label="problem")
+        return Ctx(self=o, _args=[cfg], Qa=Qa, Qb=Qb, ca=ca, cb=cb, pa=pa, pb=pb, m=m, I=I, ma=ma, mb=mb, sub=sub)
     return setup
 def post_hx_init(c, q):
     o = c.self; vc, sp = o.attrs["variable_order_costs"], o.attrs["sales_prices"]
@@ -137,8 +138,15 @@ def post_hx_init(c, q):
                   toz3(o.attrs["max_stock_a"]) == c.Qa * c.m, toz3(o.attrs["max_stock_b"]) == c.Qb * c.m, toz3(o.attrs["max_demand"]) == c.m * (MDmax + 2),
                   toz3(o.attrs["_state_space"].shape[1]) == 2 * c.m, toz3(o.attrs["_action_space"].shape[0]) == (c.Qa + 1) * (c.Qb + 1),
                   toz3(o.attrs["_random_event_space"].shape[0]) == (c.Qa * c.m + 1) * (c.Qb * c.m + 1))
+import contracts.hendrix_tables as HT
+from pyvc import reduce as R
+def post_hx_tables(c, q):
+    """the constructed problem holds the documented tables for ITS parameters: pu = Poisson demand for B thinned by binomial substitution, pz = its convolution with Poisson demand for A"""
+    x = HT._cx({"self": c.self}); z, y = z3.Ints("z!i y!i"); q.hyps += [z >= 0, z <= x.MD, y >= 0, y <= x.Sb]; a = c.self.attrs; POIS = x.I.dist["POISPMF"]
+    x["ma"], x["mb"], x["ps"] = c.ma, c.mb, c.sub                      # the CONFIGURED parameters, not whatever the object stored
+    return z3.And(toz3(a["pu"].get((z, y))) == HT.PUspec(x, z, y), toz3(a["pz"].get((z, y))) == R.mk("sum", z + 1, lambda k: POIS(c.ma, k) * HT.PUspec(x, z - k, y)))
 contract(f"{HX}.__init__", scenarios=[(f"m{m}.", setup_hx_init(m)) for m in (1, 2)],
-    ensures={"cost_and_price_vectors_stock_limits_truncation_point_and_space_sizes": post_hx_init})
+    ensures={"cost_and_price_vectors_stock_limits_truncation_point_and_space_sizes": post_hx_init, "substitution_and_total_demand_tables_for_the_configured_parameters": post_hx_tables})
 def setup_fo_init(I):
     S = z3.Int("S"); r1, r2, p = z3.Reals("r1 r2 p"); I.assume(z3.And(S >= 1, p >= 0, p <= 1))
     cfg = cfg_obj(I, FO + "Config", dict(S=S, r1=r1, r2=r2, p=p))
